@@ -12,6 +12,13 @@ MINMAX = ["ins:1,ins:2,ins:3;extmin,ins:1|extmax,era:2|ins:4,extmin;trav,size,ch
 
 def run(ctx):
     q = ctx.quick()
+    # Tier B: Ellen.tla (EllenBinTree in the libcds variant without helping: Clean( counter ) / IFlag / DFlag / Mark update words, search with the update-word
+    # re-check, try_insert, erase with check_delete_precondition, help_delete / help_marked); presence witnesses per running operation.
+    # Refuted: seeded change C15 (the Clean value is renewed only on every fourth completed operation: ABA on the flag CAS)
+    vlib.model_check_many(ctx, [dict(module_rel="set/EllenMC.tla", cfg_rel="set/Ellen_q.cfg", workers=3),
+                                dict(module_rel="set/EllenMC.tla", cfg_rel="set/Ellen_q2c.cfg", workers=2),
+                                dict(module_rel="set/EllenMC.tla", cfg_rel="set/Ellen_bad_cleanperiod.cfg", workers=2, expect_violation="LinOK")] +
+                               ([] if q else [dict(module_rel="set/EllenMC.tla", cfg_rel="set/Ellen_q3.cfg", workers=10, timeout=5000, heap="16g")]), par=3)
     n = 0 if q else 8
     deep = [("dfs", 1200 if q else 300000, 2 if q else 3)]
     ps = SC.PROGRAMS + MINMAX + [SC.gen_program(ctx.rng, SC.VOC_FULL, keys=4, minmax=True) for _ in range(n)]
